@@ -312,6 +312,9 @@ func c06Loopback(c *Ctx) {
 				switch bindKind {
 				case "fixed":
 					fixedPort = freePort("127.0.0.1")
+					for try := 0; try < 20 && fixedPort == refusedPort; try++ {
+						fixedPort = freePort("127.0.0.1") // (a TCP connect from a port to the same port on the same address connects to itself)
+					}
 					if fixedPort == 0 {
 						c.Res.Inconcl("no free port for a fixed bind address")
 						continue
